@@ -184,7 +184,15 @@ Definition run_fs (c : value) : value :=
 
 (* family "fsm": several requests through ONE handler object; the handler keeps no state between requests except its
    document root, which a request of the form (path headers newroot) replaces (setDocumentRoot) before it is served: each
-   answer is that of a fresh handler on the root in force.   case ::= ( tree rootspec ((path headers [newroot])..) version [(meta..)] ) *)
+   answer is that of a fresh handler on the root in force.   case ::= ( tree rootspec (request..) version [(meta..)] ),  request ::= (path headers [newroot]) | (1 (entry..) (path..))   the latter: the
+   file system changes (entries added, paths removed) before the next request *)
+(* the file system changes between two requests: entries (by their path) removed, entries added *)
+Definition mutate_tree (tree add rem : list value) : list value :=
+  filter (fun e => match e with
+                   | VL (VB p :: _) => negb (existsb (fun r => match r with VB q => beq p q | _ => false end) rem)
+                   | _ => true
+                   end) tree ++ add.
+
 Fixpoint run_fsm_reqs (tree : list value) (rootspec ver : bytes) (reqs : list value) : list value :=
   match reqs with
   | [] => []
@@ -192,6 +200,7 @@ Fixpoint run_fsm_reqs (tree : list value) (rootspec ver : bytes) (reqs : list va
       run_fs (VL [VL tree; VB rootspec; VB path; VL hdrs; VB ver]) :: run_fsm_reqs tree rootspec ver r
   | VL [VB path; VL hdrs; VB newroot] :: r =>
       run_fs (VL [VL tree; VB newroot; VB path; VL hdrs; VB ver]) :: run_fsm_reqs tree newroot ver r
+  | VL [VI 1; VL add; VL rem] :: r => VL [] :: run_fsm_reqs (mutate_tree tree add rem) rootspec ver r
   | _ :: r => verr :: run_fsm_reqs tree rootspec ver r
   end.
 Definition run_fsm (c : value) : value :=
